@@ -52,6 +52,7 @@ func verifPreSpawn() uint64 {
 	return 0
 }
 func verifGoStart(tok uint64) {
+	// tok == 0: the parent was not running under the simulator
 	if rt := verifRT; rt != nil && tok != 0 {
 		rt.GoStart(tok)
 	}
